@@ -103,6 +103,9 @@ class base_transfer_mass(BaseTransfer):
         # This is somewhat ugly, but we have to apply the mass matrix on u0 only on the finest level
         if F.level_index == 0:
             G.u[0] = self.space_transfer.restrict(PF.apply_mass_matrix(F.u[0]))
+        else:
+            # on coarser levels u[0] already carries the mass matrix: restrict it like a right-hand side, do not project it
+            G.u[0] = self.space_transfer.restrict(F.u[0])
 
         # works as a predictor
         G.status.unlocked = True
